@@ -652,6 +652,11 @@ func (x *Exec) allocFacts(st *State, v *Term, t types.Type) {
 	switch u := t.Underlying().(type) {
 	case *types.Pointer, *types.Chan, *types.Map:
 		st.add(Le(v, top))
+		if ct, ok := u.(*types.Chan); ok {
+			// channels of different element types never alias
+			theU.DeclFunc("chtype", SInt, SInt)
+			st.add(Implies(Neq(v, Zero), Eq(App("chtype", SInt, v), IntLit(int64(x.P.typeTag(types.NewChan(types.SendRecv, ct.Elem())))))))
+		}
 		if pt, ok := u.(*types.Pointer); ok {
 			// every non-nil reference has the dynamic type of the pointer it was reached through
 			if _, named := types.Unalias(pt.Elem()).(*types.Named); named {
